@@ -25,6 +25,33 @@ def block_open():
     return "\n".join("* " + e[len("open: "):] for e in k["open"]) or "(none)"
 
 
+def block_seeded_summary():
+    tot = conf = quick = thor = nofail = missed = 0
+    for d in sorted(glob.glob(os.path.join(V, "seeded", "*"))):
+        mj = os.path.join(d, "meta.json")
+        if not os.path.exists(mj):
+            continue
+        m = json.load(open(mj))
+        tot += 1
+        conf += 1 if m.get("confirmed") else 0
+        cb = m.get("caught_by", [])
+        own = [c for c in cb if c.startswith(m.get("breaks", "?") + "/")]
+        concrete = [c for c in cb if "no-failing-input-found" not in c]
+        if not cb:
+            missed += 1
+        elif not concrete:
+            nofail += 1
+        elif any("/quick" in c for c in concrete):
+            quick += 1
+        else:
+            thor += 1
+    return ("**Summary:** %d seeded changes (%d confirmed as specified: suite passes, demonstration fails only with the change); "
+            "%d are reported by the quick tier with a concrete replayable failing input, %d only by the thorough tier, "
+            "%d only as a broken obligation / correspondence (`no-failing-input-found`: the source-shape tie or a rejected trace, "
+            "no schedule or input of the harness exhibits the failure — these need sub-point preemption, a page fault at one "
+            "instruction, or are harmless once another repair is in place), %d missed." % (tot, conf, quick, thor, nofail, missed))
+
+
 def block_seeded():
     rows = ["| seeded change | breaks | what it changes / needs | confirmed (suite passes, demo fails) | caught by |", "|---|---|---|---|---|"]
     for d in sorted(glob.glob(os.path.join(V, "seeded", "*"))):
@@ -47,7 +74,7 @@ def block_seeded():
 def main():
     p = os.path.join(V, "DESIGN.md")
     s = open(p).read()
-    for name, fn in (("theorems", block_theorems), ("fixed", block_fixed), ("open", block_open), ("seeded", block_seeded)):
+    for name, fn in (("theorems", block_theorems), ("fixed", block_fixed), ("open", block_open), ("seeded", block_seeded), ("seeded_summary", block_seeded_summary)):
         a, b = "<!-- GEN:%s -->" % name, "<!-- /GEN:%s -->" % name
         if a in s and b in s:
             i, j = s.index(a) + len(a), s.index(b)
